@@ -77,6 +77,8 @@ Inductive schema :=
 | MergeOfDisjointSorted    (* has_duplicates=False only: concatenation of pairwise disjoint duplicate-free blocks *)
 | SharesArraysOfWf         (* GCXS: the (data, indices, indptr) of a well-formed 2-d array re-labelled
                               with swapped shape and compressed axis *)
+| RowsSortedByKernel       (* GCXS: the kernel emits every column of a row once and sorts each row
+                              segment by column before storing it *)
 | PermuteThenCtorSorts.    (* nothing promised *)
 
 Inductive justification :=
@@ -125,7 +127,7 @@ Definition J := mkJ.
 Definition site_justification : list jentry := [
   (* ---- _common.py *)
   J "_common.py" "_dot" 0 KGcxs ARaw FDefault FDefault
-    (Refuted "D8_csr_csr_rows_unsorted");
+    (Justified RowsSortedByKernel "csr @ csr / csc @ csc: every touched column is emitted once (linked-list membership test next_[k] == -1) and each row segment is argsorted by column (fix cab5c1c of finding D8)");
   J "_common.py" "_dot" 1 KGcxs ARaw FDefault FDefault
     (Unjustified "csr @ ndarray sparse kernel: rows filled in column order 0..n-1 (read; not modelled)");
   J "_common.py" "_dot" 2 KGcxs ARaw FDefault FDefault
@@ -354,10 +356,26 @@ Definition entry_flags (e : jentry) (prune : bool) : flags :=
 Definition find_entry (file func : string) (ord : Z) : option jentry :=
   find (fun e => String.eqb (j_file e) file && String.eqb (j_func e) func && (j_ord e =? ord)) site_justification.
 
-(* ------------------------------------------------------------------ csr @ csr (finding D8) *)
+(* ------------------------------------------------------------------ offset concatenation *)
+
+(* concatenate along axis 0: block i's leading coordinate is offset by the extents before it *)
+Definition offset0 (off : Z) (c : idx) : idx :=
+  match c with [] => [] | i :: t => (i + off) :: t end.
+
+Fixpoint offset_concat (off : Z) (blocks : list (Z * list idx)) : list idx :=
+  match blocks with
+  | [] => []
+  | (d, cs) :: r => map (offset0 off) cs ++ offset_concat (off + d) r
+  end.
+
+Definition total_extent (blocks : list (Z * list idx)) : Z := fold_right (fun b s => fst b + s) 0 blocks.
+
+
+(* ------------------------------------------------------------------ csr @ csr (the kernel of former finding D8) *)
 
 (* _common._dot_csr_csr_type: Gustavson's row-by-row product with a linked list of the touched
-   columns (`next_`, `head`), transcribed with functional arrays.  Values in Z. *)
+   columns (`next_`, `head`), transcribed with functional arrays; since the repair of D8 every
+   row segment is sorted by column before it is stored.  Values in Z. *)
 Definition upd {A} (l : list A) (i : Z) (v : A) : list A :=
   if (i <? 0) || (Z.of_nat (length l) <=? i) then l
   else firstn (Z.to_nat i) l ++ v :: skipn (S (Z.to_nat i)) l.
@@ -382,8 +400,8 @@ Fixpoint drain (n : nat) (nxt sums : list Z) (head : Z) (acc : list (Z * Z)) : l
     drain n' (upd nxt head (-1)) (upd sums head 0) (znth nxt head 0) acc'
   end.
 
-(* one output row: (column, value) pairs in the order the kernel stores them *)
-Definition csr_csr_row (n_col : Z) (a b : gcxs Z) (i : Z) : list (Z * Z) :=
+(* the (column, value) pairs of output row i in the order the linked list yields them *)
+Definition csr_csr_row_raw (n_col : Z) (a b : gcxs Z) (i : Z) : list (Z * Z) :=
   let a_row := combine (row_slice (g_indices a) (g_indptr a) i) (row_slice (g_data a) (g_indptr a) i) in
   let init : ll_state := (repeat (-1) (Z.to_nat n_col), repeat 0 (Z.to_nat n_col), -2, 0) in
   let st := fold_left (fun st jav =>
@@ -393,27 +411,31 @@ Definition csr_csr_row (n_col : Z) (a b : gcxs Z) (i : Z) : list (Z * Z) :=
   let '(nxt, sums, head, len) := st in
   drain (Z.to_nat len) nxt sums head [].
 
-Fixpoint chunks_rev {A} (n : nat) (fuel : nat) (l : list A) : list A :=
-  match fuel with
-  | O => l
-  | S f => match l with [] => [] | _ => rev (firstn n l) ++ chunks_rev n f (skipn n l) end
+(* order = np.argsort(indices[row]); indices[row] = indices[row][order]; data likewise.  The
+   columns of a row are distinct, so every sorting permutation gives this result. *)
+Fixpoint insert_col (x : Z * Z) (l : list (Z * Z)) : list (Z * Z) :=
+  match l with
+  | [] => [x]
+  | y :: r => if fst x <=? fst y then x :: y :: r else y :: insert_col x r
   end.
+Definition sort_row (l : list (Z * Z)) : list (Z * Z) := fold_right insert_col [] l.
 
-(* a, b: 2-d, compressed axis 0.  None = ZeroDivisionError (n_col = 0 in the final test). *)
-Definition dot_csr_csr (a b : gcxs Z) : option (gcxs Z) :=
+Definition csr_csr_row (n_col : Z) (a b : gcxs Z) (i : Z) : list (Z * Z) :=
+  sort_row (csr_csr_row_raw n_col a b i).
+
+(* a, b: 2-d, compressed axis 0 *)
+Definition dot_csr_csr (a b : gcxs Z) : gcxs Z :=
   let n_row := znth (g_shape a) 0 0 in
   let n_col := znth (g_shape b) 1 0 in
   let rows := map (csr_csr_row n_col a b) (zrange n_row) in
   let indptr := fold_left (fun acc r => acc ++ [last acc 0 + Z.of_nat (length r)]) rows [0] in
   let flat := concat rows in
-  let nnz := Z.of_nat (length flat) in
-  if nnz =? n_col * n_row then
-    if n_col =? 0 then None
-    else
-      (* fully dense result: every row is reversed in place *)
-      let flat' := chunks_rev (Z.to_nat n_col) (Z.to_nat n_row) flat in
-      Some (mkGCXS [n_row; n_col] [0] (map snd flat') (map fst flat') indptr 0)
-  else Some (mkGCXS [n_row; n_col] [0] (map snd flat) (map fst flat) indptr 0).
+  mkGCXS [n_row; n_col] [0] (map snd flat) (map fst flat) indptr 0.
 
-(* GCXS(..., prune=True): GCXS._prune drops fill-valued entries and recounts indptr — the D8 witness
-   has none, so the raw kernel output is what the constructor stores. *)
+(* GCXS(..., prune=True) -> GCXS._prune: drop fill-valued entries, recount indptr per row *)
+Definition gcxs_prune2 (g : gcxs Z) : gcxs Z :=
+  let rows := rows_of (combine (g_indices g) (g_data g)) (g_indptr g) in
+  let rows' := map (filter (fun p : Z * Z => negb (snd p =? g_fill g))) rows in
+  let indptr := fold_left (fun acc r => acc ++ [last acc 0 + Z.of_nat (length r)]) rows' [0] in
+  let flat := concat rows' in
+  mkGCXS (g_shape g) (g_caxes g) (map snd flat) (map fst flat) indptr (g_fill g).
